@@ -96,6 +96,24 @@ def judge_acl(case) -> Verdict:
     n = len(flat)
     if n == 0 or n != len(acl_case["items"]):
         raise Invalid()
+    late = case.get("late") or []
+    if late and target == "acl":
+        # entries appended to the list of the (possibly grouped) ACL after it was built: plain entries and
+        # remarks that repeat a heading already used by a block
+        from cisco_acl import Ace, Remark
+
+        rems = [it["text"] for it in acl_case["items"] if it["t"] == "rem"]
+        for el in late:
+            if el[0] == "rem" and rems:
+                obj.items.append(Remark("remark " + rems[el[1] % len(rems)], platform=platform))
+            elif el[0] == "rem":
+                obj.items.append(Remark("remark late", platform=platform))
+            elif el[0] == "ace":
+                obj.items.append(Ace("permit ip any any", platform=platform, version=acl_case.get("version", "0")))
+            else:
+                raise Invalid()
+        flat = list(_flat(obj.items))
+        n = len(flat)
     grouped = any(isinstance(o, AceGroup) for o in obj.items)
     ids = [id(o) for o in flat]
     uu = [(o.uuid, o.note) for o in flat]
@@ -186,6 +204,8 @@ def acl_case_st(draw, tier):
     case = {"acl": acl, "start": start, "step": step, "target": draw(st.sampled_from(["acl", "acl", "acl", "acegroup"]))}
     if draw(st.sampled_from([True, False, False])):
         case["first"] = list(draw(args_st(n)))
+    if case["target"] == "acl" and draw(st.sampled_from(range(4))) == 0:
+        case["late"] = [draw(st.sampled_from([["rem", 0], ["rem", 1], ["rem", 2], ["ace"]])) for _ in range(draw(st.integers(1, 3)))]
     if not acl["group_by"] and draw(st.booleans()):
         case["spans"] = [[draw(st.integers(0, n)), draw(st.integers(1, 4))] for _ in range(draw(st.integers(1, 3)))]
     return case
